@@ -11,6 +11,7 @@
 int main(void)
 {
 	char *line = NULL; size_t cap = 0; ssize_t n;
+	setvbuf(stdout, NULL, _IOLBF, 0);   /* a line per case reaches the harness even if a later case is stopped by a sanitizer */
 	while ((n = getline(&line, &cap, stdin)) > 0) {
 		LHAInputStream *st; LHABasicReader *r; LHAFileHeader *h; unsigned idx = 0;
 		line[strcspn(line, "\n")] = 0;
